@@ -7,6 +7,7 @@ use crate::{
     crypto::verif as cv,
     mc::{
         explore::{self, ExploreOpts, Model},
+        sweep::{sweep_list, SweepOpts},
         util, CaseResult, Ctx, Fail, Tier,
     },
     util::MsgBuffer,
@@ -290,7 +291,85 @@ impl Model for M {
     }
 }
 
+// ---------- PeerCrypto level: the tick must reach the core in EVERY round of a connection's life ----------
+
+#[derive(Serialize, Deserialize, Clone, Debug)]
+pub struct LifeCase {
+    pub cipher: String,
+    pub a_wins: bool,
+    pub rounds: u32,
+}
+
+/// Two real PeerCrypto ends after a genuine handshake; every round: both tick (rotation messages are delivered), one data
+/// datagram each way; every datagram is replayed 0, 1, 2, 3 and 5 rounds after its delivery and the verdict compared with
+/// the history-only rule (accepted only if nothing at least as new was accepted two ticks earlier).
+pub fn run_life(c: &LifeCase) -> CaseResult {
+    use crate::crypto::MessageResult;
+    let (mut a, mut b, first) = super::c07::established_pair(&[&c.cipher], c.a_wins)?;
+    if let Some(bytes) = first {
+        let mut buf = MsgBuffer::new(SPACE);
+        load(&mut buf, &bytes);
+        a.handle_message(&mut buf).ok();
+    }
+    // (round delivered, direction a->b, wire bytes)
+    let mut sent: Vec<(u32, bool, Vec<u8>)> = vec![];
+    let mut late_ok = 0u64;
+    for round in 0..c.rounds {
+        for is_a in [true, false] {
+            let mut out = MsgBuffer::new(SPACE);
+            let r = if is_a { a.every_second(&mut out) } else { b.every_second(&mut out) };
+            if let Ok(MessageResult::Reply) = r {
+                let bytes = out.message().to_vec();
+                let mut buf = MsgBuffer::new(SPACE);
+                load(&mut buf, &bytes);
+                let rx = if is_a { &mut b } else { &mut a };
+                rx.handle_message(&mut buf).ok();
+            }
+        }
+        for a_to_b in [true, false] {
+            let (tx, rx) = if a_to_b { (&mut a, &mut b) } else { (&mut b, &mut a) };
+            let (_, _, wire) = probe(tx, rx, 0, format!("round {}", round).as_bytes()).map_err(|e| Fail::new("payload_lost", format!("round {}: {}", round, e)))?;
+            sent.push((round, a_to_b, wire));
+        }
+        // replays
+        for (r0, a_to_b, wire) in sent.iter().filter(|s| [0, 1, 2, 3, 5].contains(&(round - s.0))) {
+            let age = round - r0;
+            let rx = if *a_to_b { &mut b } else { &mut a };
+            let mut buf = MsgBuffer::new(SPACE);
+            load(&mut buf, wire);
+            let accepted = rx.handle_message(&mut buf).is_ok();
+            // traffic flows every round, so something newer was accepted in every later round: two ticks after its
+            // delivery a datagram is outside the window; inside the window (age 0, 1) it is accepted
+            if age >= 2 && accepted {
+                return Err(Fail::new("replay_accepted", format!("datagram delivered in round {} accepted again in round {} ({} ticks later)", r0, round, age)).with("level", "peer_crypto").with("near_rotation", (r0 % 120) >= 117 || (r0 % 120) <= 1));
+            }
+            if age <= 1 && !accepted {
+                return Err(Fail::new("fresh_rejected", format!("datagram delivered in round {} rejected in round {} (inside the window)", r0, round)).with("level", "peer_crypto"));
+            }
+            if age >= 2 {
+                late_ok += 1;
+            }
+        }
+        sent.retain(|s| round - s.0 < 6);
+    }
+    Ok(late_ok)
+}
+
 pub fn run(ctx: &Ctx) {
+    let mut lives = vec![];
+    for cipher in ["aes128", "aes256", "chacha20"] {
+        for a_wins in [true, false] {
+            lives.push(LifeCase { cipher: cipher.to_string(), a_wins, rounds: ctx.tier.pick(260, 1300) });
+        }
+    }
+    sweep_list(ctx, "lifetime_replays", &lives, SweepOpts { chunk: 1, ..Default::default() }, run_life);
+    // node level: verbatim re-injection of wire datagrams (also after a replayed handshake datagram) through real nodes - the
+    // executions of C09 that carry the replay-window oracle
+    let node_cases: Vec<super::c09::Case> = super::c09::cases(ctx.tier)
+        .into_iter()
+        .filter(|c| c.variant == "verbatim" && c.source == "original" && c.target == "dest" && (c.second.is_none() || c.second.map(|s| s.0 == usize::MAX).unwrap_or(false)))
+        .collect();
+    sweep_list(ctx, "node_replays", &node_cases, SweepOpts { chunk: 1, trivial_classes: vec![0], ..Default::default() }, super::c09::run_case);
     let ciphers: &[u8] = ctx.tier.pick(&[1, 3][..], &[1, 2, 3][..]);
     for &algo in ciphers {
         let (depth, seals, rots) = match (ctx.tier, algo) {
@@ -316,6 +395,12 @@ pub fn run(ctx: &Ctx) {
 }
 
 pub fn replay(family: &str, case: &Value) -> Option<CaseResult> {
+    if family == "lifetime_replays" {
+        return super::replay_with::<LifeCase>(case, run_life);
+    }
+    if family == "node_replays" {
+        return super::replay_with::<super::c09::Case>(case, super::c09::run_case);
+    }
     let algo = if family.contains("aes128") {
         1
     } else if family.contains("aes256") {
